@@ -16,7 +16,8 @@
    the snapshot is checked (C07, C08) and a fresh build from it must terminate, succeed when a from-scratch
    build would, and satisfy C01. Power-loss reordering below the file-system API is not modelled. *)
 From Coq Require Import Relations.
-From Ruler Require Import Bytes AList RuleSyntax TopoSort World Cmdlang Work Build Ops Inv InvFacts C11Facts.
+From Ruler Require Import Bytes AList RuleSyntax TopoSort World Cmdlang Work Build Ops Inv BuildSpec Ideal InvFacts C01Hist C01Facts C11Facts
+     Acts ActsFacts.
 
 Theorem C11_crash_state_recovers : forall w w' : world sym,
   disk_inv sym_eqb SContent w -> no_bad_state_files sym sym_eqb w ->
@@ -54,4 +55,82 @@ Theorem C11_build_keeps_state_files_good : forall (w : world sym) rp goal,
   no_bad_state_files sym sym_eqb (o_world (build sym_eqb SContent SList SRule w rp goal)).
 Proof. exact (build_keeps_state_files_good sym sym_eqb SContent SList SRule sym_eqb_spec). Qed.
 
+(* ------------------------------------------------------------------------------------------------------
+   EVERY CRASH POINT, EXPLICITLY (Model/Acts.v, Proofs/Acts*.v). `build_acts w rp goal` / `clean_acts` list the
+   primitive disk actions of the modelled invocation in order (mkdirs, renames into and out of the cache, one
+   script line of a command each, the replacement of a state file); the crash states are the disk after every
+   prefix, `run_acts (firstn k acts) w`. The crash suite compares these prefix states, one by one and in order, with
+   the implementation's disk at every action boundary.
+   crash_ok = disk invariant (cache content-addressed, remembered states sound) + sound rule histories + no
+   damaged state file. It holds after every history without user damage to state files, at EVERY crash point of a
+   build or clean started there, and therefore the next build from ANY crash point is never wedged and satisfies
+   C01: whenever it reports success every target of its plan holds the from-scratch content. (Whether it reports
+   success is decided by the user's commands; see C01/C06 for the verdict.) *)
+
+Local Notation crash_ok_sym := (crash_ok sym sym_eqb SContent SList SRule).
+Local Notation build_acts_sym := (build_acts sym_eqb SContent SList SRule).
+Local Notation clean_acts_sym := (clean_acts sym_eqb SContent).
+Local Notation run_acts_sym := (run_acts sym_eqb SRule).
+Local Notation build_sym := (build sym_eqb SContent SList SRule).
+
+Theorem C11_crash_ok_meaning : forall w : world sym,
+  crash_ok_sym w <->
+  disk_inv sym_eqb SContent w /\ hist_sound sym sym_eqb SContent SList SRule w /\ no_bad_state_files sym sym_eqb w.
+Proof. exact crash_ok_sym_unfold. Qed.
+
+(* the action lists are the modelled build and clean: running all actions gives exactly their final disk *)
+Theorem C11_actions_are_the_build : forall (w : world sym) rp goal,
+  run_acts_sym (build_acts_sym w rp goal) w = o_world (build_sym w rp goal).
+Proof. exact acts_build_sound_sym. Qed.
+
+Theorem C11_actions_are_the_clean : forall (w : world sym) rp goal,
+  run_acts_sym (clean_acts_sym w rp goal) w = o_world (clean sym_eqb SContent w rp goal).
+Proof. exact acts_clean_sound_sym. Qed.
+
+(* every crash point of a build / of a clean *)
+Theorem C11_every_crash_point_of_a_build : forall (w : world sym) goal pre suf,
+  crash_ok_sym w -> build_det sym w goal ->
+  build_acts_sym w RULES_PATH goal = pre ++ suf -> crash_ok_sym (run_acts_sym pre w).
+Proof. exact acts_build_crash_ok_sym. Qed.
+
+Theorem C11_every_crash_point_of_a_clean : forall (w : world sym) goal pre suf,
+  crash_ok_sym w -> clean_acts_sym w RULES_PATH goal = pre ++ suf -> crash_ok_sym (run_acts_sym pre w).
+Proof. exact acts_clean_crash_ok_sym. Qed.
+
+(* the next build (some time later: tick) from any crash point of a build *)
+Theorem C11_next_build_after_a_killed_build : forall (w : world sym) goal k goal' w1 tbl pack,
+  crash_ok_sym w -> build_det sym w goal ->
+  let wc := tick (run_acts_sym (firstn k (build_acts_sym w RULES_PATH goal)) w) in
+  crash_ok_sym wc /\ cache_addressed sym_eqb SContent wc /\
+  o_verdict (build_sym wc RULES_PATH goal') <> VFatal FTable /\
+  o_verdict (build_sym wc RULES_PATH goal') <> VFatal FHistory /\
+  (init_dir sym wc = Ok (w1, tbl) -> get_nodes sym w1 RULES_PATH goal' = Ok pack ->
+   Forall det_node (p_nodes pack) ->
+   o_verdict (build_sym wc RULES_PATH goal') = VOk ->
+   forall t, In t (plan_targets pack) ->
+     content_at (o_world (build_sym wc RULES_PATH goal')) t = content_at (scratch_world wc pack) t).
+Proof. exact c11_recovery_after_build_crash_tick_sym. Qed.
+
+Theorem C11_next_build_after_a_killed_clean : forall (w : world sym) goal k goal' w1 tbl pack,
+  crash_ok_sym w ->
+  let wc := tick (run_acts_sym (firstn k (clean_acts_sym w RULES_PATH goal)) w) in
+  crash_ok_sym wc /\ cache_addressed sym_eqb SContent wc /\
+  o_verdict (build_sym wc RULES_PATH goal') <> VFatal FTable /\
+  o_verdict (build_sym wc RULES_PATH goal') <> VFatal FHistory /\
+  (init_dir sym wc = Ok (w1, tbl) -> get_nodes sym w1 RULES_PATH goal' = Ok pack ->
+   Forall det_node (p_nodes pack) ->
+   o_verdict (build_sym wc RULES_PATH goal') = VOk ->
+   forall t, In t (plan_targets pack) ->
+     content_at (o_world (build_sym wc RULES_PATH goal')) t = content_at (scratch_world wc pack) t).
+Proof. exact c11_recovery_after_clean_crash_tick_sym. Qed.
+
+(* the premise holds after every history of the C01 alphabet in which the user did not plant or damage state files *)
+Theorem C11_crash_ok_after_every_history : forall t0 (ops : list (op sym)),
+  0 < t0 -> det_history sym sym_eqb SContent SList SRule (init_world Fine t0) ops ->
+  Forall (fun o => match o with OSetTable _ | OSetHist _ _ => False | _ => True end) ops ->
+  crash_ok_sym (fold_left (fun w o => fst (apply_op sym_eqb SContent SList SRule w o)) ops (init_world Fine t0)).
+Proof. exact history_crash_ok_sym. Qed.
+
 Check C11_crash_state_recovers.
+Check C11_every_crash_point_of_a_build.
+Check C11_next_build_after_a_killed_build.
